@@ -153,6 +153,11 @@ def run_step(step, comps):
                     rd, wr = dialect_obj(read), dialect_obj(write)
                     return ["ok", [wr.generate(e, copy=False) if e else "" for e in rd.parse(sql)]]
                 return ["ok", sqlglot.transpile(sql, read=read, write=write, **_gen_opts(step.get("opts")))]
+            if op == "qualify_raw":
+                from sqlglot.optimizer.qualify import qualify
+
+                t = qualify(sqlglot.parse_one(sql, read=read), dialect=read, validate_qualify_columns=False)
+                return ["ok", t.sql(read)]
             if op == "annotate_raw":
                 from sqlglot.optimizer.annotate_types import annotate_types
 
